@@ -110,6 +110,24 @@ def h_sample_prob(ctx, n, r, target, gauge=False):
     ctx.canary('canary', ctx.eq(prod * tot, F[tuple(target)] + 1))
 
 
+def h_sample_prob_int(ctx, target):
+    """sample() on a non-negative tensor given by cores of integer dtype (a table
+    of counts), d = 3, rank 2: same chain rule as for float cores."""
+    Y = [np.array([[[1, 2], [3, 1]]]), np.array([[[2, 1], [1, 3]], [[1, 2], [4, 1]]]), np.array([[[1], [2]], [[3], [1]]])]
+    F = ref_full([np.array([[[ctx.const(int(v)) for v in row] for row in blk] for blk in G],
+                           dtype=object if is_sym(ctx) else float) for G in Y])
+    tot = F.sum()
+    g = _gen(ctx, 'audit', script=list(target))
+    I = teneva.sample(Y, 1, seed=g, unsert=0.)
+    ctx.claim('returns_drawn_index', [int(x) for x in I[0]] == list(target))
+    ch = [e for e in g.log if e[0] == 'choice']
+    prod = 1
+    for k, e in enumerate(ch):
+        prod = prod * e[3][target[k]]
+    ctx.claim('chain_rule_probability', ctx.close(prod * tot, F[tuple(target)], 1e-9))
+    ctx.claim('cores_untouched', all(G.dtype.kind == 'i' for G in Y))
+
+
 def h_sample_shape(ctx, n, r, m):
     """All outcomes of the integer draws (forked): shape, dtype, bounds."""
     Y = ctx.tt('y', n, r)
@@ -314,6 +332,8 @@ def instances(tier):
     for tgt in multi_indices([2, 2]):
         out.append({'func': 'h_sample_prob', 'params': {'n': [2, 2], 'r': 2, 'target': list(tgt), 'gauge': True},
                     'opts': {'generic_divisors': True}})
+    for tgt in ([0, 1, 1], [1, 0, 0], [1, 1, 0]):
+        out.append({'func': 'h_sample_prob_int', 'params': {'target': tgt}})
     out.append({'func': 'h_sample_shape', 'params': {'n': [2, 2], 'r': 1, 'm': 2}})
     for tgt in multi_indices([2, 2]):
         out.append({'func': 'h_square_prob', 'params': {'n1': 2, 'n2': 2, 'r': 2, 'target': list(tgt)},
